@@ -24,6 +24,9 @@ struct Slot {
     released: AtomicBool,
     touched_after_release: AtomicBool,
     below_start: AtomicBool,
+    /// what the caller's task owns and lets go of when its waker is released for the last time (e.g. the retained
+    /// foreign-side waker of another task: the release of one caller waker then re-enters the library)
+    on_release: Mutex<Option<Waker>>,
 }
 
 impl Slot {
@@ -39,6 +42,8 @@ impl Slot {
         }
         if now == 0 {
             self.released.store(true, SeqCst);
+            let owned = self.on_release.lock().unwrap().take();
+            drop(owned);
         }
     }
 }
@@ -110,6 +115,7 @@ fn manual_waker(null_data: bool) -> (Waker, &'static Slot) {
         released: AtomicBool::new(false),
         touched_after_release: AtomicBool::new(false),
         below_start: AtomicBool::new(false),
+        on_release: Mutex::new(None),
     }));
     if null_data {
         NULL_SLOT.store(slot as *const Slot as *mut Slot, SeqCst);
@@ -595,6 +601,54 @@ fn kind_of(name: &str) -> Kind {
     }
 }
 
+/// `n` tasks, each polled once through an opaque future that retains a clone of the waker it is given; task i owns the
+/// retained foreign-side waker of task i + 1 and lets go of it when its own waker is released for the last time. Letting
+/// go of the first handle (drop / wake by value) therefore releases every caller waker, each release re-entering the
+/// library from inside the previous one.
+fn chain_case(n: usize, by_wake: bool) -> CaseOut {
+    let mut slots: Vec<&'static Slot> = Vec::new();
+    let mut handles: Vec<Option<Waker>> = Vec::new();
+    for _ in 0..n {
+        let (w, slot) = manual_waker(false);
+        let world = Arc::new(Mutex::new(World::default()));
+        world.lock().unwrap().pending = vec![Act::CloneCx];
+        let mut obj = trait_obj!(Scripted(world.clone()) as Future);
+        {
+            let mut cx = Context::from_waker(&w);
+            let _ = Future::poll(Pin::new(&mut obj), &mut cx);
+        }
+        let h = world.lock().unwrap().wakers.pop().map(|x| x.0);
+        drop(obj);
+        drop(w);
+        slots.push(slot);
+        handles.push(h);
+    }
+    if handles.iter().any(|h| h.is_none()) {
+        return CaseOut::bad("harness", "the scripted future did not retain a waker");
+    }
+    for i in 0..n - 1 {
+        *slots[i].on_release.lock().unwrap() = handles[i + 1].take();
+    }
+    let h0 = handles[0].take().unwrap();
+    if by_wake {
+        h0.wake();
+    } else {
+        drop(h0);
+    }
+    let left: Vec<usize> = (0..n).filter(|i| slots[*i].refs.load(SeqCst) != 0 || !slots[*i].released.load(SeqCst)).collect();
+    let over: Vec<usize> = (0..n).filter(|i| slots[*i].below_start.load(SeqCst) || slots[*i].touched_after_release.load(SeqCst)).collect();
+    let wakes: Vec<u64> = slots.iter().map(|s| s.wakes.load(SeqCst)).collect();
+    let mut out = CaseOut::ok(digest(&(n, by_wake, &wakes)));
+    if !left.is_empty() {
+        out.violation = Some(("waker:leak_chain".into(), format!("chain of {} tasks, first handle {}: the caller wakers of tasks {:?} were not released although every foreign-side handle is gone (refcounts {:?})", n, if by_wake { "woken by value" } else { "dropped" }, left, slots.iter().map(|s| s.refs.load(SeqCst)).collect::<Vec<_>>())));
+    } else if !over.is_empty() {
+        out.violation = Some(("waker:over_release".into(), format!("chain of {} tasks: the caller wakers of tasks {:?} were released too often / touched after their release", n, over)));
+    } else if wakes[0] != by_wake as u64 || wakes[1..].iter().any(|w| *w != 0) {
+        out.violation = Some(("waker:wake_count".into(), format!("chain of {} tasks: wake counts {:?}", n, wakes)));
+    }
+    out
+}
+
 fn main() {
     std::panic::set_hook(Box::new(|_| {}));
     let mut sections = Vec::new();
@@ -633,6 +687,19 @@ fn main() {
             let o = Sut { kind: Kind::Future, max_wakers: 8, threads: true, null_data: false }.run(&h);
             CaseOut { obs: o.obs, nontrivial: true, violation: o.violation }
         }),
+    });
+    sections.push(Section {
+        name: "release_chain",
+        explore: Box::new(|cx: &Cx| {
+            let nmax = cx.tier.pick(6, 12);
+            cx.rule("release_chain", &format!("re-entrant releases: chains of 1..={} tasks in which the last release of task i's caller waker lets go of the retained foreign-side waker of task i + 1; the first handle is dropped / woken by value; every caller waker is released exactly once, none touched afterwards, only the first one woken", nmax));
+            for n in 1..=nmax {
+                for by_wake in [false, true] {
+                    cx.eval("release_chain", &serde_json::json!({"n": n, "by_wake": by_wake}), || chain_case(n, by_wake));
+                }
+            }
+        }),
+        replay: Box::new(|case: &Value| chain_case(case["n"].as_u64().unwrap() as usize, case["by_wake"].as_bool().unwrap())),
     });
     explore::run_main(CheckDef {
         property: "C19",
